@@ -2112,7 +2112,7 @@ def do_wrappers(ck, stats):
 def run(ck: common.Check):
     import collections
 
-    ck.prove(["GeffProps.C03", "GeffProps.C03Links", "GeffProps.C03Adapters", "GeffProps.C03Dispatch", "GeffProps.C10C03Links"])
+    ck.prove(["GeffProps.C03", "GeffProps.C03Links", "GeffProps.C03Adapters", "GeffProps.C03Dispatch", "GeffProps.C10C03Links", "GeffProps.C03Gen"])
     ck.rule = ("cases = corpus + pinned defect witnesses + bounded-exhaustive attribute graphs (<=3 nodes, <=3 edges, every "
                "presence subset of one property x kind in {bool,int,int>=2^63,mixed ints,float,str,list,2-d list,ragged,ragged 2-d} "
                "x id sets {small,sparse,around 2^63,all >= 2^63} x directed/undirected) and seeded random graphs up to 30 nodes, each "
